@@ -144,7 +144,12 @@ def spell_match(m):
     if k == 'stri':
         return spell_bytes(m['bytes']) + 'i'
     if k == 'bin':
-        return '"' + ' '.join('%02x' % b for b in m['bytes']) + '"b'
+        # spacing styles: pairs run together, one blank, two blanks, blanks *inside* the pairs (only the hex digits count)
+        sp = m.get('sp', 1)
+        if sp == 3:
+            digits = ''.join('%02x' % b for b in m['bytes'])
+            return '"' + digits[:1] + ''.join(' ' + digits[i:i + 2] for i in range(1, len(digits), 2)) + '"b'
+        return '"' + ['', ' ', '  '][sp].join('%02x' % b for b in m['bytes']) + '"b'
     if k == 'end':
         return 'end'
     if k == 're':
@@ -1638,11 +1643,13 @@ def gen_literal_program(seed):
         k = r.choice(kinds)
         if k in ('str', 'stri', 'bin'):
             body.append({'t': 'match', 'm': {'k': k, 'bytes': bs(r.randint(1, 3))}})
+            if k == 'bin':
+                body[-1]['m']['sp'] = r.randrange(4)
         elif k == 're':
             b = r.choice([x for x in range(0x20, 0x7f)])
             body.append({'t': 'match', 'm': {'k': 're', 'r': {'k': 'seq', 'c': [{'k': 'ch', 'c': b}, {'k': 'ch', 'c': r.choice(b'abc')}]}, 'bin': False}})
         elif k == 'cat':
-            body.append({'t': 'match', 'm': {'k': 'cat', 'ms': [{'k': 'str', 'bytes': bs(1)}, {'k': 'bin', 'bytes': bs(2)}]}})
+            body.append({'t': 'match', 'm': {'k': 'cat', 'ms': [{'k': 'str', 'bytes': bs(1)}, {'k': 'bin', 'bytes': bs(2), 'sp': r.randrange(4)}]}})
         elif k == 'setstr':
             tgt = r.choice(['s', 'u'])
             cap = size - 1 if tgt == 's' else size
@@ -1920,7 +1927,12 @@ def gen_macro_program(seed, bad=None):
     # m_ws(): optional { " "; }
     m_ws = {'name': 'm_ws', 'params': [], 'b': [{'t': 'opt', 'b': [{'t': 'match', 'm': {'k': 'str', 'bytes': [32]}}]}]}
     m_tab = {'name': 'm_tab', 'params': [], 'b': [{'t': 'opt', 'b': [{'t': 'match', 'm': {'k': 'str', 'bytes': [9]}}, {'t': 'hook', 'n': 'h0'}]}]}
-    macros = [m_set, m_read, m_stop, m_twice, m_ws, m_tab, m_put, m_two, m_on, m_mark]
+    # m_echo(match kw, out buf, hook hk): kw; hk(); "="; buf += kw;      (a match parameter used twice, each use with its own actions)
+    m_echo = {'name': 'm_echo', 'params': [('match', 'kw'), ('out', 'buf'), ('hook', 'hk')],
+              'b': [{'t': 'match', 'm': {'k': 'arg', 'name': 'kw'}}, {'t': 'hook', 'n': 'hk'}, {'t': 'match', 'm': {'k': 'str', 'bytes': [61]}},
+                    {'t': 'try', 'b': [{'t': 'append', 'var': 'buf', 'm': {'k': 'arg', 'name': 'kw'}}], 'handles': ['outofspace'], 'h': [{'t': 'delete', 'var': 'buf'}]},
+                    {'t': 'match', 'm': {'k': 'str', 'bytes': [44]}}]}
+    macros = [m_set, m_read, m_stop, m_twice, m_ws, m_tab, m_put, m_two, m_on, m_mark, m_echo]
     d1, d2 = r.sample(A, 2)
     loop_body = [
         {'t': 'call', 'n': 'm_read', 'argv': [{'k': 're', 'r': {'k': 'plus', 'c': {'k': 'set', 'inv': False, 'items': [['ch', d1], ['ch', 120]]}}, 'bin': False}, 's', {'k': 'str', 'bytes': [59]}]},
@@ -1944,6 +1956,9 @@ def gen_macro_program(seed, bad=None):
         loop_body[2]['argv'] = [r.choice(['n', 'k']), r.choice([{'k': 'num', 'v': 1}, {'k': 'bin', 'op': '*', 'l': {'k': 'len', 'name': 's'}, 'r': {'k': 'num', 'v': 2}}, {'k': 'chr', 'c': 2}]), r.choice(hooks)]
     else:
         loop_body[2]['argv'] = ['m_tab', r.choice(['n', 'k']), r.choice(hooks)]
+    if r.random() < 0.6:
+        kw = r.choice([{'k': 'str', 'bytes': [101, 102]}, {'k': 'str', 'bytes': [102]}, {'k': 're', 'r': {'k': 'seq', 'c': [{'k': 'ch', 'c': 101}, {'k': 'set', 'inv': False, 'items': [['ch', 102], ['ch', 103]]}]}, 'bin': False}])
+        loop_body.insert(0, {'t': 'call', 'n': 'm_echo', 'argv': [kw, 's', r.choice(hooks)]})
     body = [{'t': 'match', 'm': lit()}, {'t': 'loop', 'name': 'L', 'b': loop_body}, {'t': 'match', 'm': {'k': 'str', 'bytes': [33]}}]
     p = _mk(outs, hooks, fcodes, [], body)
     p['macros'] = macros
